@@ -279,6 +279,7 @@ pub fn write_csv<T: Serialize>(
 /// * `shards`: optional shard count. If `None`, defaults to `2 * num_cpus()`,
 ///   clamped to `[1, data.len()]`.
 /// * `has_headers`: if `true`, only shard 0 writes the header (once).
+/// * Creates parent directories if they don't exist (like [`write_csv_vec`]).
 ///
 /// # Returns
 /// The number of rows written (i.e., `data.len()`).
@@ -297,6 +298,11 @@ pub fn write_csv_par<T: Serialize + Sync>(
 ) -> Result<usize> {
     let n = data.len();
     let path = path.as_ref();
+    if let Some(parent) = path.parent()
+        && !parent.as_os_str().is_empty()
+    {
+        create_dir_all(parent).with_context(|| format!("mkdir -p {}", parent.display()))?;
+    }
 
     // Empty case: create/truncate file, nothing to do.
     if n == 0 {
